@@ -1206,7 +1206,7 @@ func runCase(c Case) kit.Result {
 
 var _ = kit.Register(kit.Prop[Case]{
 	Name: "QuorumEscalation",
-	Rule: "4-6 validators (node = v0; senators/chancellors/house, online/offline), protocol triple as in C01, ordinary round or certificate round 32768 on a synthetic header table over the real validator trie; histories of step timers, next-index, honest and adversarial proposals (forged / non-maximal priority, inflated or zero seats, house/offline proposer, other sender key) and votes with genuine credentials delivered through the real MessageHandler.HandleMsg -> processVoteMsg path (duplicate, equivocation, wrong weight, credential of another step/index, stale/future index, other round, foreign message key, house/offline sender, signature over another block) plus 'members vote until the quorum is just crossed / just missed'. Oracle: tally model from generator ground truth (distinct valid non-equivocating senders, true weights): precommit only after a prevote quorum for exactly that block, certificate vote only after a precommit quorum, commit only after precommit (and certificate) quorums; every commit is assembled as Server.commit does and must be accepted by header verification. Non-trivial = the node escalated or committed AND the history has an adversarial delivery or lands next to the quorum",
+	Rule: "4-6 validators (node = v0; senators/chancellors/house, online/offline), protocol triple as in C01, ordinary round or certificate round 32768 on a synthetic header table over the real validator trie; histories of step timers, next-index, honest and adversarial proposals (forged / non-maximal priority, inflated or zero seats, house/offline proposer, other sender key) and votes with genuine credentials delivered through the real MessageHandler.HandleMsg -> processVoteMsg path (duplicate, equivocation, wrong weight, credential of another step/index, stale/future index, other round, foreign message key, house/offline sender, signature over another block) plus 'members vote until the quorum is just crossed / just missed', late double votes of senders that were already counted (also for the previous round index), quorum / double voter / other quorum episodes, votes outrunning the block body, votes for blocks proposed in earlier round indexes (locked blocks), and - after a commit - the committed block becoming the head, the next round, and late precommits for it (genuine, inflated, other step, wrong signature; for the commit's round index or an earlier one) merged into the stored header by the real updateBlockHeader. Oracle: tally model from generator ground truth (distinct valid non-equivocating senders, true weights): precommit only after a prevote quorum for exactly that block, certificate vote only after a precommit quorum, commit only after precommit (and certificate) quorums; every commit is assembled as Server.commit does and must be accepted by header verification, the stored header must stay acceptable after every update, and every double-vote evidence the node posts must pass the slashing code's acceptance rule (signer index, both signatures over the context the evidence names). Non-trivial = the node escalated or committed AND the history has an adversarial delivery or lands next to the quorum",
 	Gen:  genCase, Run: runCase,
 	Quick: 250, Thorough: 3000, Chunk: 50, MinNonTrivialPct: 12,
 })
